@@ -118,6 +118,10 @@ let qc_sqrt (x : qc) : qc = qc_of_float (Float.sqrt (float_of_qc x))
 let fq : qc fops = qc_fops qc_sqrt
 let qadd = fq.oadd and qmul = fq.omul and qsub = fq.osub
 
+(* 1e100 and 1e-100 of BaseNearestNeighbor::eval, exactly *)
+let huge_q = let ten = qc_of_int 10 in let rec pw k acc = if k = 0 then acc else pw (k - 1) (qmul acc ten) in pw 100 (qc_of_int 1)
+let tiny_q = fq.odiv (qc_of_int 1) huge_q
+
 type pkind = KLc | KKhc of (qc list -> qc list -> qc)
 let parse_ptree (kind : string) (s : string) =
   (* returns (lc tree option, khc tree option) *)
@@ -189,7 +193,7 @@ let make_poracle tbl flags used ftie =
       if int_of_nat mpm <> r.mp then flags := Printf.sprintf "MPOS(real=%d,model=%d,n=%d)" r.mp (int_of_nat mpm) (List.length l) :: !flags;
       let fk = List.combine r.post r.keys in
       List.iter (fun (k, i) -> let f = List.assoc (int_of_nat i) fk in
-                  if not (close (float_of_qc k) f) then flags := Printf.sprintf "KEY(point %d: model %.17g real %.17g)" (int_of_nat i) (float_of_qc k) f :: !flags) l;
+                  if not (close (float_of_qc k) f) then flags := Printf.sprintf "KEY(point=%d,model=%.17g,real=%.17g)" (int_of_nat i) (float_of_qc k) f :: !flags) l;
       (* tie pattern of exact keys vs recorded doubles *)
       let arr = Array.of_list (List.map (fun (k, i) -> (k, List.assoc (int_of_nat i) fk)) l) in
       let broken = ref false in
@@ -285,6 +289,25 @@ let () =
           (if perm = List.init !n (fun i -> i) then "ok" else "BAD")
           (List.length (List.filter fst units)) (List.length units)
           (if units = [] then "-" else String.concat "," (List.map (fun (_, u) -> g17 u) units)) built
+      | "V" :: u :: nc :: rest ->
+        (* vote of NearestNeighborModel (classification) on the neighbour list a real back-end returned:  V <uniform 0/1> <classes> d:l,d:l,.. *)
+        let nb = List.map (fun t -> match String.split_on_char ':' t with
+                   | [d; l] -> (qc_of_float (float_of_string d), nat_of_int (int_of_string l)) | _ -> failwith "V parse")
+                   (String.split_on_char ',' (String.concat "" rest)) in
+        let uni = (u = "1") and ncn = nat_of_int (int_of_string nc) in
+        let sc = nn_scores fq tiny_q huge_q uni ncn nb in
+        (* indices whose score equals the maximum in exact arithmetic (rounding to double can hide a difference) *)
+        let mx = List.fold_left (fun m x -> if fq.oleb m x then x else m) (List.hd sc) sc in
+        let exm = List.filter (fun i -> let x = List.nth sc i in fq.oleb mx x && fq.oleb x mx) (List.init (List.length sc) (fun i -> i)) in
+        Printf.printf "V %d %s %s\n" (int_of_nat (nn_classify fq tiny_q huge_q uni ncn nb)) (String.concat "," (List.map (fun x -> g17 (float_of_qc x)) sc))
+          (String.concat "," (List.map string_of_int exm))
+      | "W" :: u :: dl :: rest ->
+        (* regression:  W <uniform 0/1> <label dimension> d:l0,l1;d:l0,l1;.. *)
+        let nb = List.map (fun t -> match String.split_on_char ':' t with
+                   | [d; l] -> (qc_of_float (float_of_string d), List.map (fun x -> qc_of_float (float_of_string x)) (String.split_on_char ',' l)) | _ -> failwith "W parse")
+                   (String.split_on_char ';' (String.concat "" rest)) in
+        let r = nn_regress fq tiny_q huge_q (u = "1") (nat_of_int (int_of_string dl)) nb in
+        Printf.printf "W %s\n" (String.concat "," (List.map (fun x -> g17 (float_of_qc x)) r))
       | "Q" :: hs when !kind <> "kd" ->
         let q = List.map (fun h -> qmul (qc_of_int (int_of_string h)) (qc_make (z_of_int 1) (XO XH))) hs in
         let b = Buffer.create 1024 in
